@@ -175,13 +175,38 @@ def laneConn : List String → String
     | _, _, _ => "bad-op"
   | _ => "bad-op"
 
+/-- `c04cut <G|H> <eof|hold> <hex stream> <k>` (the keepalive lane; same answer format as C03's
+`c03cut`, kept here so that the C04 check does not depend on another property's driver file):
+the peer answers the first request with the first `k` bytes of the stream and then closes
+(`eof`) or keeps the connection open (`hold`); outcome of the first request and the number of
+connections after a second one. -/
+def laneCut : List String → String
+  | [meth, mode, hex, ks] =>
+    match decodeHex hex, ks.toNat? with
+    | some s, some k =>
+      if meth != "G" && meth != "H" then "bad-op"
+      else if mode != "eof" && mode != "hold" then "bad-op"
+      else
+        let isHead := meth == "H"
+        let o := parseFinal isHead 4096 (s.take k)
+        let env : ReuseEnv := ⟨false, isHead, false, mode == "eof", true, true, true⟩
+        let dials := if connReusable o env then "1" else "2"
+        match o with
+        | .reject => "fail dials=" ++ dials
+        | .resp m b =>
+          if b.ok then "ok code=" ++ toString m.sl.code ++ " body=" ++ encodeHex b.data ++ " dials=" ++ dials
+          else "fail dials=" ++ dials
+    | _, _ => "bad-op"
+  | _ => "bad-op"
+
 def lanes : List (String × (List String → String)) := [
   ("c04parse", laneParse),
   ("c04chunk", laneChunk),
   ("c04mime", laneMime),
   ("c04conn", laneConn),
   ("c04parseE", laneParseE),
-  ("c04chunkE", laneChunkE)
+  ("c04chunkE", laneChunkE),
+  ("c04cut", laneCut)
 ]
 
 end Req.Driver.L.C04
